@@ -1093,14 +1093,16 @@ BUILTINS = {
 
 
 # -------------------------------------------------------------------- Option / bool / iterator combinators
-def _call_f(I, st, f, args):
-    """value of calling closure (or fn item) f with args; Undecided when it forks"""
+def _call_f(I, st, f, args, multi=False):
+    """value of calling closure (or fn item) f with args; Undecided when it forks (multi=True: the list of all outcomes)"""
     fv = _deref_arg(I, st, f)
     while isinstance(fv, tuple) and fv and fv[0] in ('ref', 'refval', 'mref'):
         fv = I.deref(fv, st)
     sub = Interp(I.prog, I.handlers, I.fuel, I.max_paths)
     sub.steps = I.steps
     sub.depth = I.depth + 1
+    if hasattr(I, 'gen_checks'):
+        sub.gen_checks = I.gen_checks
     if isinstance(fv, dict) and '#closure' in fv:
         # captured shared references point into the frame that created the closure: hand the callee snapshots of the values
         fv = dict(fv)
@@ -1113,6 +1115,8 @@ def _call_f(I, st, f, args):
     else:
         raise Unsupported('call of %r' % (fv,))
     I.steps = sub.steps
+    if multi:
+        return [o.ret for o in outs]
     if len(outs) != 1:
         raise Undecided('closure forks inside a combinator')
     return outs[0].ret
@@ -1308,7 +1312,15 @@ def h_array_from_fn(I, st, a, t, b):
     m = _re.search(r'; (\d+)\]', b.local_ty(t['dest']['local']))
     if not m:
         raise Unsupported('array::from_fn of unknown length')
-    return tuple(_call_f(I, st, a[0], [i]) for i in range(int(m.group(1))))
+    import itertools as _it
+    per = [_call_f(I, st, a[0], [i], multi=True) for i in range(int(m.group(1)))]
+    n = 1
+    for x in per:
+        n *= len(x)
+    if n > 64:
+        raise Undecided('array::from_fn generator forks too often')
+    alts = [tuple(c) for c in _it.product(*per)]
+    return alts[0] if len(alts) == 1 else Fork(alts)
 
 
 BUILTINS.update({
